@@ -443,6 +443,29 @@ func ackThenFile(ctx *core.Ctx, bin string, round int) {
 			return ok, nil
 		}},
 	}
+	// a write followed, in the same packet, by a command that turns the connection into a live one
+	for _, lv := range [][]string{{"SUBSCRIBE", "chlive"}, {"PSUBSCRIBE", "chl*"}, {"NEARBY", "p", "FENCE", "POINT", "1", "2", "100"}, {"WITHIN", "p", "FENCE", "BOUNDS", "0", "0", "5", "5"}, {"AOF", "0"}, {"MONITOR"}} {
+		lv := lv
+		shapes = append(shapes, shape{"write-then-" + strings.ToLower(lv[0]) + "-one-packet", func(tok string) (bool, error) {
+			c, err := dial()
+			if err != nil {
+				return false, err
+			}
+			defer c.Close()
+			var b []byte
+			b = append(b, respc.Encode("SET", "p", "lv1", "STRING", tok)...)
+			b = append(b, respc.Encode(lv...)...)
+			if _, err := c.Write(b); err != nil {
+				return false, err
+			}
+			c.SetReadDeadline(time.Now().Add(10 * time.Second))
+			buf := make([]byte, 5)
+			if _, err := io.ReadFull(c, buf); err != nil {
+				return false, nil
+			}
+			return string(buf) == "+OK\r\n", nil
+		}})
+	}
 	for _, sh := range shapes {
 		tok := tokf()
 		acked, err := sh.run(tok)
